@@ -417,9 +417,14 @@ pub type ObjMap = HashMap<u64, (Vec<u8>, Vec<(u32, u8, u64, u32)>)>;
 /// references (link fields excepted, they are checked recursively).  Returns the set of objects
 /// seen and the number of distinct (object, position) copies.
 pub fn walk(out: &[u8], objs: &ObjMap, root: u64) -> Result<(BTreeSet<u64>, usize, usize), String> {
+    walk_from(out, objs, root, 0)
+}
+
+/// the same walk starting at object `root` placed at `start`
+pub fn walk_from(out: &[u8], objs: &ObjMap, root: u64, start: usize) -> Result<(BTreeSet<u64>, usize, usize), String> {
     let mut seen: HashSet<(u64, usize)> = HashSet::new();
     let mut ids = BTreeSet::new();
-    let mut stack = vec![(root, 0usize)];
+    let mut stack = vec![(root, start)];
     let mut covered = 0usize;
     while let Some((id, pos)) = stack.pop() {
         if !seen.insert((id, pos)) {
@@ -806,6 +811,38 @@ pub fn check_typed(s: &mut Session, group: &'static str, spec: &Spec, full: bool
     }
 }
 
+/// two lookups of different lookup types sharing one subtable, then fillers, all of which overflow:
+/// promotion must give each lookup its own extension subtable carrying its own lookup type
+fn shared_subtable_specs() -> Vec<Spec> {
+    let mut v = vec![];
+    for (gpos, ta, tb, tf) in [(false, 2u16, 3u16, 1u16), (true, 1, 3, 5), (false, 4, 4, 1)] {
+        for (shared_leaf, filler_leaf, n_fill) in [(42_000usize, 21_000usize, 3usize), (30_000, 30_000, 2), (60_000, 10_000, 4)] {
+            // 0 header, 1 lookup list, 2 = A, 3 = B, 4 = shared subtable, 5 = its leaf, then fillers (lookup, subtable, leaf)
+            let mut nodes = vec![
+                N { size: 10, fill: 1, links: vec![L { pos: 8, width: 2, target: 1, adj: 0 }] },
+                N { size: 0, fill: 2, links: vec![L { pos: 0, width: 2, target: 2, adj: 0 }, L { pos: 0, width: 2, target: 3, adj: 0 }] },
+                N { size: 8, fill: 3, links: vec![L { pos: 6, width: 2, target: 4, adj: 0 }] },
+                N { size: 8, fill: 4, links: vec![L { pos: 6, width: 2, target: 4, adj: 0 }] },
+                N { size: 12, fill: 5, links: vec![L { pos: 2, width: 2, target: 5, adj: 0 }] },
+                N { size: shared_leaf, fill: 6, links: vec![] },
+            ];
+            let mut types = vec![None, None, Some((gpos, ta)), Some((gpos, tb)), None, None];
+            for k in 0..n_fill {
+                let base = nodes.len();
+                nodes[1].links.push(L { pos: 0, width: 2, target: base, adj: 0 });
+                nodes.push(N { size: 8, fill: 0x20 + k as u8, links: vec![L { pos: 6, width: 2, target: base + 1, adj: 0 }] });
+                nodes.push(N { size: 12, fill: 0x30 + k as u8, links: vec![L { pos: 2, width: 2, target: base + 2, adj: 0 }] });
+                nodes.push(N { size: filler_leaf, fill: 0x40 + k as u8, links: vec![] });
+                types.extend([Some((gpos, tf)), None, None]);
+            }
+            let need = place_links(&mut nodes[1].links, 2) as usize;
+            nodes[1].size = need;
+            v.push(Spec { nodes, root: 0, types });
+        }
+    }
+    v
+}
+
 /// GPOS/GSUB shaped graphs: header → lookup list → typed lookups → subtables → big shared leaves
 fn lookup_family(rng: &mut Rng) -> Spec {
     let gpos = rng.chance(1, 2);
@@ -829,6 +866,7 @@ fn lookup_family(rng: &mut Rng) -> Spec {
         .collect();
     // leaves are appended last; remember the links to patch
     let mut leaf_links: Vec<(usize, usize, usize)> = vec![]; // (node, link index, leaf)
+    let mut shareable: Vec<usize> = vec![];
     for _ in 0..n_lookups {
         let lookup = nodes.len();
         nodes[1].links.push(L { pos: 0, width: 2, target: lookup, adj: 0 });
@@ -838,6 +876,13 @@ fn lookup_family(rng: &mut Rng) -> Spec {
         types.push(Some((gpos, t)));
         let n_sub = rng.below(4) as usize + if rng.chance(1, 10) { 0 } else { 1 };
         for _ in 0..n_sub {
+            // a subtable shared with an earlier lookup (byte-identical subtable data of two lookups,
+            // possibly of different lookup types, is one object after ObjectStore deduplication)
+            if !is_ext && !shareable.is_empty() && rng.chance(1, 3) {
+                let sub = *rng.pick(&shareable);
+                nodes[lookup].links.push(L { pos: 0, width: 2, target: sub, adj: 0 });
+                continue;
+            }
             let mut sub = nodes.len();
             if is_ext {
                 // an extension subtable already in the input
@@ -850,6 +895,9 @@ fn lookup_family(rng: &mut Rng) -> Spec {
             }
             nodes.push(N { size: 0, fill: 0x50 + (sub % 64) as u8, links: vec![] });
             types.push(None);
+            if !is_ext {
+                shareable.push(sub);
+            }
             let k = 1 + rng.below(3) as usize;
             for j in 0..k {
                 let leaf = rng.below(n_leaves as u64) as usize;
@@ -1180,6 +1228,161 @@ mod real {
         gsub::Gsub::new(Default::default(), Default::default(), list)
     }
 
+    /// a GSUB whose Multiple and Alternate lookups hold byte-identical subtable data (one object after
+    /// deduplication), followed by big SingleSubst fillers: both shared lookups get promoted
+    pub fn shared_subtable_gsub(n_shared: u16, seq_len: u16, fillers: &[(u16, u16)], swap: bool) -> gsub::Gsub {
+        let gids = |r: std::ops::Range<u16>| -> Vec<GlyphId16> { r.map(GlyphId16::new).collect() };
+        let coverage = |r: std::ops::Range<u16>| -> layout::CoverageTable { r.map(GlyphId16::new).collect() };
+        let multiple = gsub::MultipleSubstFormat1::new(
+            coverage(0..n_shared),
+            (0..n_shared).map(|i| gsub::Sequence::new(gids(i..i + seq_len))).collect(),
+        );
+        let alternate = gsub::AlternateSubstFormat1::new(
+            coverage(0..n_shared),
+            (0..n_shared).map(|i| gsub::AlternateSet::new(gids(i..i + seq_len))).collect(),
+        );
+        let m = gsub::SubstitutionLookup::Multiple(layout::Lookup::new(layout::LookupFlag::empty(), vec![multiple]));
+        let a = gsub::SubstitutionLookup::Alternate(layout::Lookup::new(layout::LookupFlag::empty(), vec![alternate]));
+        let mut lookups = if swap { vec![a, m] } else { vec![m, a] };
+        for (first, n) in fillers {
+            let sub = gsub::SingleSubst::format_2(
+                coverage(*first..*first + *n),
+                (0..*n).map(|i| GlyphId16::new(i.wrapping_mul(7) ^ *first)).collect(),
+            );
+            lookups.push(gsub::SubstitutionLookup::Single(layout::Lookup::new(layout::LookupFlag::empty(), vec![sub])));
+        }
+        gsub::Gsub::new(Default::default(), Default::default(), layout::LookupList::new(lookups))
+    }
+
+    /// a class-based (format 2) PairPos subtable with DISTINCT non-null VariationIndex tables on both
+    /// value records of every `dev_every`-th class2 record
+    pub fn pair_pos_f2_devices(class1: u16, class2: u16, dev_every: u16) -> gpos::PairPos {
+        use read_fonts::tables::gpos::ValueFormat;
+        let class_def = |n_classes: u16, per: u16| -> layout::ClassDef {
+            (1..=n_classes * per).map(|gid| (GlyphId16::new(gid), (gid - 1) / per)).collect()
+        };
+        let value_record = |k: u16, outer: Option<u16>| -> gpos::ValueRecord {
+            let rec = gpos::ValueRecord::new()
+                .with_explicit_value_format(ValueFormat::X_ADVANCE | ValueFormat::X_ADVANCE_DEVICE)
+                .with_x_advance(k as i16);
+            match outer {
+                Some(outer) => rec.with_x_advance_device(layout::VariationIndex::new(outer, k)),
+                None => rec,
+            }
+        };
+        let class_def1 = class_def(class1, 4);
+        let class_def2 = class_def(class2, 3);
+        let coverage: layout::CoverageTable = class_def1.iter().map(|(gid, _)| gid).collect();
+        let class1_records = (0..class1)
+            .map(|i| {
+                gpos::Class1Record::new(
+                    (0..class2)
+                        .map(|j| {
+                            let k = i * class2 + j;
+                            let has = j % dev_every == 0;
+                            gpos::Class2Record::new(value_record(k, has.then_some(1)), value_record(k, has.then_some(2)))
+                        })
+                        .collect(),
+                )
+            })
+            .collect();
+        gpos::PairPos::format_2(coverage, class_def1, class_def2, class1_records)
+    }
+
+    fn be16(b: &[u8], at: usize) -> usize {
+        if at + 2 <= b.len() { u16::from_be_bytes([b[at], b[at + 1]]) as usize } else { 0 }
+    }
+
+    /// Through PairPos splitting (and promotion): every offset of a final PairPos subtable that lies in
+    /// its PairSet-offset array (format 1) / class record array (format 2) or is its ClassDef2 offset
+    /// corresponds, by position, to exactly one offset of the INPUT subtable it was split from; the
+    /// output bytes at the resolved position must be a byte-for-byte copy of the object graph the input
+    /// offset referenced, and no input offset may be lost.
+    pub fn check_pairpos_split(out: &[u8], input_objs: &[ObjView], final_objs: &[ObjView]) -> Result<usize, String> {
+        let inmap = objview_map(input_objs);
+        let fin: HashMap<u64, &ObjView> = final_objs.iter().map(|o| (o.id, o)).collect();
+        let inp: HashMap<u64, &ObjView> = input_objs.iter().map(|o| (o.id, o)).collect();
+        let mut checked = 0usize;
+        for lookup in input_objs.iter().filter(|o| type_token(&o.type_name).as_deref() == Some("p2")) {
+            let fl = fin.get(&lookup.id).ok_or_else(|| format!("lookup {} is gone", lookup.id))?;
+            let promoted = type_token(&fl.type_name).as_deref() == Some("p9");
+            // final subtables in order, extension subtables unwrapped
+            let mut finals: Vec<&ObjView> = vec![];
+            for l in &fl.links {
+                let mut t = *fin.get(&l.2).ok_or_else(|| format!("lookup {}: subtable {} missing", lookup.id, l.2))?;
+                if promoted {
+                    if t.bytes.len() != 8 || t.links.len() != 1 || be16(&t.bytes, 2) != 2 {
+                        return Err(format!("lookup {}: object {} is not an extension subtable of type 2", lookup.id, t.id));
+                    }
+                    t = *fin.get(&t.links[0].2).ok_or_else(|| "extension target missing".to_string())?;
+                }
+                finals.push(t);
+            }
+            let mut j = 0usize;
+            for il in &lookup.links {
+                let s_in = *inp.get(&il.2).ok_or_else(|| "input subtable missing".to_string())?;
+                let fmt = be16(&s_in.bytes, 0);
+                let (header, in_count, unit) = match fmt {
+                    1 => (10usize, be16(&s_in.bytes, 8), 2usize),
+                    2 => {
+                        let recsize = 2 * ((be16(&s_in.bytes, 4) as u16).count_ones() + (be16(&s_in.bytes, 6) as u16).count_ones()) as usize;
+                        (16usize, be16(&s_in.bytes, 12), be16(&s_in.bytes, 14) * recsize)
+                    }
+                    _ => return Err(format!("input PairPos subtable {} has format {fmt}", s_in.id)),
+                };
+                let mut a = 0usize; // records of this input subtable already accounted for
+                let mut matched: HashSet<u32> = HashSet::new();
+                while a < in_count || (in_count == 0 && a == 0) {
+                    let f = finals.get(j).ok_or_else(|| format!("lookup {}: ran out of final subtables (input subtable {} has {in_count} records, {a} found)", lookup.id, s_in.id))?;
+                    j += 1;
+                    if be16(&f.bytes, 0) != fmt {
+                        return Err(format!("final subtable {} has format {}, input {fmt}", f.id, be16(&f.bytes, 0)));
+                    }
+                    let count = if fmt == 1 { be16(&f.bytes, 8) } else { be16(&f.bytes, 12) };
+                    for (pos, width, _target, adj) in &f.links {
+                        let pos_u = *pos as usize;
+                        let in_pos = if pos_u >= header {
+                            pos_u + a * unit
+                        } else if fmt == 2 && pos_u == 10 {
+                            10
+                        } else {
+                            continue; // coverage / ClassDef1 are rebuilt by the split
+                        };
+                        let il2 = s_in.links.iter().find(|l| l.0 as usize == in_pos && l.1 == *width).ok_or_else(|| {
+                            format!("final subtable {} (records {a}..{}): offset at {pos} has no counterpart at {in_pos} in input subtable {}", f.id, a + count, s_in.id)
+                        })?;
+                        matched.insert(il2.0);
+                        let at = f.position as usize + pos_u;
+                        let mut v = 0usize;
+                        for k in 0..*width as usize {
+                            v = (v << 8) | *out.get(at + k).ok_or_else(|| "offset field outside the output".to_string())? as usize;
+                        }
+                        let tpos = f.position as usize + *adj as usize + v;
+                        walk_from(out, &inmap, il2.2, tpos).map_err(|e| {
+                            format!("final subtable {} (records {a}..{}): offset at {pos} (input subtable {} offset at {in_pos}, written to reference object {}) resolves to {tpos}: {e}", f.id, a + count, s_in.id, il2.2)
+                        })?;
+                        checked += 1;
+                    }
+                    a += count;
+                    if in_count == 0 {
+                        break;
+                    }
+                }
+                if a != in_count {
+                    return Err(format!("input subtable {}: {in_count} records, final subtables hold {a}", s_in.id));
+                }
+                let lost = s_in.links.iter().filter(|l| (l.0 as usize >= header || (fmt == 2 && l.0 == 10)) && !matched.contains(&l.0)).count();
+                if lost > 0 {
+                    return Err(format!("input subtable {}: {lost} offsets have no counterpart after splitting", s_in.id));
+                }
+            }
+            if j != finals.len() {
+                return Err(format!("lookup {}: {} final subtables, {} accounted for", lookup.id, finals.len(), j));
+            }
+        }
+        Ok(checked)
+    }
+
     /// pair lookups of a compiled GPOS through read-fonts: value of (g1, g2) in lookup `li`
     pub fn read_pair(bytes: &[u8], li: usize, g1: u16, g2: u16) -> Option<i16> {
         use read_fonts::tables::gpos as rgpos;
@@ -1260,6 +1463,15 @@ mod real {
                     s.count(&format!("real:input-walk:{}", if *promoted > 0 { "promoted-lookups" } else { "no-promotion" }));
                 }
             }
+            // PairPos lookups: every offset of the (possibly split, possibly promoted) subtables lands on a
+            // byte-for-byte copy of the object graph the corresponding INPUT offset referenced
+            if in_types.values().any(|t| t.0 && t.1 == 2) {
+                let r = check_pairpos_split(out, &input_objs, &objs);
+                s.oracle("real:split-offsets-land-on-input-objects", r.is_ok(), input, || format!("{:?}", r.as_ref().err()));
+                if let Ok(n) = &r {
+                    s.count(&format!("real:split-offsets-checked:{}", if *n == 0 { "0" } else if *n < 1000 { "<1000" } else { ">=1000" }));
+                }
+            }
             // adjustment never exceeds the parent's size on real tables (hypothesis of serialize_sound)
             let adj_ok = objs.iter().all(|o| o.links.iter().all(|l| l.3 as usize <= o.bytes.len() && (l.0 + l.1 as u32) as usize <= o.bytes.len()));
             s.oracle("real:adjustment<=parent-size", adj_ok, input, || String::new());
@@ -1295,6 +1507,25 @@ mod real {
         for (n_ext, hi, per) in [(2usize, 10u16, 10u16), (4, 40, 165), (5, 30, 165)] {
             let table = shared_extension_gpos(n_ext, 0, hi, per);
             check_table(s, &format!("gpos-shared-extension-{n_ext}x{hi}x{per}"), &table);
+        }
+        // lookups of DIFFERENT types sharing byte-identical subtable data, under overflow pressure
+        for (n_shared, seq_len, fillers, swap) in [
+            (500u16, 40u16, vec![(1000u16, 10_500u16), (12_000, 10_500), (24_000, 10_500)], false),
+            (500, 40, vec![(1000, 10_500), (12_000, 10_500), (24_000, 10_500)], true),
+            (300, 30, vec![(1000, 14_000), (16_000, 14_000)], false),
+            (20, 4, vec![(1000, 50)], false),
+        ] {
+            let table = shared_subtable_gsub(n_shared, seq_len, &fillers, swap);
+            check_table(s, &format!("gsub-shared-subtable-{n_shared}x{seq_len}+{}fillers{}", fillers.len(), if swap { "-swapped" } else { "" }), &table);
+        }
+        // PairPos format 2 with distinct device tables on both value records, split (and promoted)
+        for (c1, c2, every, extra) in [(100u16, 100u16, 5u16, 0usize), (60, 40, 1, 0), (100, 100, 5, 2), (10, 10, 2, 0)] {
+            let mut lookups = vec![gpos::PositionLookup::Pair(layout::Lookup::new(layout::LookupFlag::empty(), vec![pair_pos_f2_devices(c1, c2, every)]))];
+            for k in 0..extra {
+                lookups.push(big_pair_pos(1 + 100 * k as u16, 60 + 100 * k as u16, 165));
+            }
+            let table = gpos_table(lookups);
+            check_table(s, &format!("gpos-pairpos2-devices-{c1}x{c2}/{every}+{extra}"), &table);
         }
         for n in [10u16, 3279, 3400] {
             let table = rsub_gsub(n);
@@ -1473,6 +1704,11 @@ fn run(cfg: &Config, s: &mut Session) {
     }
 
     // 5c. typed graphs: extension promotion
+    if on("typed") {
+        for spec in shared_subtable_specs() {
+            check_typed(s, "shared-subtable", &spec, true);
+        }
+    }
     let n_typed = if !on("typed") { 0 } else if cfg.thorough() { 12_000 } else { 900 };
     for i in 0..n_typed {
         let spec = lookup_family(&mut rng);
